@@ -1205,6 +1205,9 @@ func (fe *FnEnc) trCall(x ECall, env *Env) SVal {
 	case "mtimeOf": // modification time last set for a path through os.Chtimes (ghost)
 		v := fe.mat(fe.tr(x.Args[0], env), env)
 		return SVal{T: tSel(fe.getComp(env.state(), "MT", arrSort(sStr, sInt)), v.T), Typ: env.resolveType("time.Time")}
+	case "spawned": // spawned(Key): how many go statements of this call started the function Key (e.g. Cache.pruneCount)
+		cn := "SPAWN." + exprString(x.Args[0])
+		return SVal{T: tArith("-", fe.getComp(env.state(), cn, sInt), fe.oldComp(cn, sInt)), Typ: types.Typ[types.Int]}
 	case "siteCount": // siteCount(Key, k): how often the k-th call site of Key (in source order of execution) ran during this call
 		key := exprString(x.Args[0])
 		k := exprString(x.Args[1])
